@@ -2,6 +2,7 @@ import Proofs.Lemmas.OMap
 import Proofs.Lemmas.Pattern
 import Proofs.Lemmas.Run
 import Proofs.Lemmas.SortTie
+import Proofs.Lemmas.Reduce
 import Proofs.C20Sites
 import Generated.C20MapRanges
 import Generated.C20PkgState
@@ -25,7 +26,7 @@ by hand (`Proofs/C20Sites.lean`). The repetition / history search of the harness
 interpreter independently of all of this.
 -/
 namespace C20
-open Model.OMap Proofs.OMap Proofs.Pattern Model.Run Proofs.Run Model.Sites Model.SortKeys Proofs.SortTie
+open Model.OMap Proofs.OMap Proofs.Pattern Model.Run Proofs.Run Model.Sites Model.SortKeys Proofs.SortTie Model.Reduce Proofs.Reduce
 
 /-! ## (i) the ordered property store -/
 
@@ -454,5 +455,98 @@ conditions, that `C20Sites.expectedEntry` records and `harness/c20/runner.go` re
 theorem C20_entry_path_as_mirrored :
     C20Sites.entryDiff Generated.C20Resets.entry C20Sites.expectedEntry = none := by
   decide
+
+/-! ## (vi) first-of-ties reductions over map-ordered candidates (round 6)
+
+`max`, `min`, `array_search` … keep the *first* candidate that nothing beats and return it as itself.
+When the candidates are collected by ranging over the Go map behind a string-keyed array, the candidate
+list is an arbitrary permutation of the entries (`Model/Reduce.lean`). -/
+
+/-- **First-of-ties, positive.** For any strict comparison (irreflexive, transitive — Go's `>` on
+float64 with NaN, on integers, on strings; no totality assumed): when the entries contain only one
+candidate that nothing beats, the loop returns it for every order in which the map iterator may
+deliver the entries. -/
+theorem Pattern_first_of_ties_perm {α : Type} {gt : α → α → Bool} (h : StrictOrder gt) {xs ys : List α}
+    (uniq : ∀ a b, Maximal gt xs a → Maximal gt xs b → a = b) (hp : ys.Perm xs) :
+    firstBest gt ys = firstBest gt xs := by
+  cases hx : firstBest gt xs with
+  | none =>
+    cases xs with
+    | nil => rw [List.Perm.eq_nil hp]; rfl
+    | cons a l => simp [firstBest] at hx
+  | some r =>
+    have hne : ys ≠ [] := by
+      intro e; subst e
+      have := hp.symm.eq_nil
+      subst this; simp [firstBest] at hx
+    obtain ⟨r', hy⟩ := firstBest_isSome gt hne
+    have m := firstBest_maximal h hx
+    have m' := firstBest_maximal h hy
+    have m'' : Maximal gt xs r' :=
+      ⟨hp.mem_iff.mp m'.1, fun x hxm => m'.2 x (hp.mem_iff.mpr hxm)⟩
+    rw [hy, uniq r' r m'' m]
+
+/-- **First-of-ties, NEGATIVE.** Two different entries that nothing beats (they tie at the top: `3`
+and `3.0`): there are two orders of the same entries on which the loop returns different candidates —
+each of the two comes out when the iterator delivers it first. No hypothesis on the comparison. -/
+theorem Pattern_first_of_ties_depends {α : Type} [DecidableEq α] (gt : α → α → Bool) {xs : List α} {a b : α}
+    (ha : Maximal gt xs a) (hb : Maximal gt xs b) (hab : a ≠ b) :
+    ∃ l₁ l₂ : List α, l₁.Perm xs ∧ l₂.Perm xs ∧ firstBest gt l₁ ≠ firstBest gt l₂ := by
+  refine ⟨a :: xs.erase a, b :: xs.erase b, perm_front ha.1, perm_front hb.1, ?_⟩
+  rw [firstBest_head gt a _ (fun x hx => ha.2 x (List.mem_of_mem_erase hx)),
+    firstBest_head gt b _ (fun x hx => hb.2 x (List.mem_of_mem_erase hx))]
+  intro e; exact hab (Option.some.inj e)
+
+/-- **First-of-ties is independent of the map order iff the best candidate is unique.** For the
+entries of an array and any strict comparison: the loop gives one result for every order of the
+entries exactly when no two different entries tie at the top. (What a classification of a
+`range GetProperties()` site as an order-insensitive reduction has to argue; `max` over values that
+may be `3` and `3.0` cannot.) -/
+theorem Pattern_first_of_ties_perm_iff {α : Type} [DecidableEq α] {gt : α → α → Bool} (h : StrictOrder gt)
+    (xs : List α) :
+    (∀ l₁ l₂ : List α, l₁.Perm xs → l₂.Perm xs → firstBest gt l₁ = firstBest gt l₂) ↔
+      (∀ a b, Maximal gt xs a → Maximal gt xs b → a = b) := by
+  constructor
+  · intro indep a b ha hb
+    apply Classical.byContradiction
+    intro hab
+    obtain ⟨l₁, l₂, p₁, p₂, hne⟩ := Pattern_first_of_ties_depends gt ha hb hab
+    exact hne (indep l₁ l₂ p₁ p₂)
+  · intro uniq l₁ l₂ p₁ p₂
+    rw [Pattern_first_of_ties_perm h uniq p₁, Pattern_first_of_ties_perm h uniq p₂]
+
+/-- **`max` / `min` over the entries of a string-keyed array**, candidates taken in the order the loop
+meets them: when one entry is strictly the largest (smallest), every collection order gives it. -/
+theorem C20_max_unique_best_order_independent {κ : Type} {xs ys : List (κ × PVal)}
+    (uniq : ∀ a b, Maximal (fun a b => numGt a.2 b.2) xs a → Maximal (fun a b => numGt a.2 b.2) xs b → a = b)
+    (hp : ys.Perm xs) : maxOf ys = maxOf xs := by
+  unfold maxOf
+  rw [Pattern_first_of_ties_perm (strict_comap numGt_strict (fun e : κ × PVal => e.2)) uniq hp]
+
+theorem C20_min_unique_best_order_independent {κ : Type} {xs ys : List (κ × PVal)}
+    (uniq : ∀ a b, Maximal (fun a b => numLt a.2 b.2) xs a → Maximal (fun a b => numLt a.2 b.2) xs b → a = b)
+    (hp : ys.Perm xs) : minOf ys = minOf xs := by
+  unfold minOf
+  rw [Pattern_first_of_ties_perm (strict_comap numLt_strict (fun e : κ × PVal => e.2)) uniq hp]
+
+/-- **Negation witness (replayed on the real interpreter by the reorder stream on a tree that collects
+the candidates from the Go map):** `max(['a' => 3, 'b' => 3.0])` with the candidates in map order is not
+a function of the array — the two orders of the two entries give `int(3)` and `float(3)`. -/
+theorem C20_max_assoc_map_order_counterexample :
+    ¬ (∀ l₁ l₂ : List (String × PVal), l₁.Perm [("a", .int 3), ("b", .float 3)] →
+        l₂.Perm [("a", .int 3), ("b", .float 3)] → maxOf l₁ = maxOf l₂) := by
+  intro hall
+  have := hall [("a", .int 3), ("b", .float 3)] [("b", .float 3), ("a", .int 3)] (List.Perm.refl _)
+    (List.Perm.swap _ _ _)
+  revert this
+  decide
+
+/-- the hypotheses of `Pattern_first_of_ties_perm` are satisfiable: one entry on top, two orders -/
+example : maxOf [("a", PVal.int 1), ("b", .float 3), ("c", .numstr 2)] = some (.float 3) ∧
+    maxOf [("c", PVal.numstr 2), ("a", .int 1), ("b", .float 3)] = some (.float 3) := by decide
+
+/-- … and those of `Pattern_first_of_ties_depends`: `3` and `3.0` both on top -/
+example : maxOf [("a", PVal.int 3), ("b", .float 3), ("c", .int 1)] = some (.int 3) ∧
+    maxOf [("b", PVal.float 3), ("a", .int 3), ("c", .int 1)] = some (.float 3) := by decide
 
 end C20
